@@ -29,7 +29,7 @@ RULE = (
 )
 ASSUMPTIONS = [
     "Cython 3 and gcc are available offline (verified); if the rebuild fails the run is a harness error, not a pass",
-    "windows whose index x resolution exceeds 2^31 are outside the grid",
+    "windows are bounded by 75 years (slot tables of that length are still allocated by the checks)",
 ]
 
 WORKER = os.path.join(boot.VERIF, "vlib", "c13_worker.py")
@@ -124,6 +124,9 @@ def grid_jobs(tier):
     for r, years in ((1, 3), (5, 3), (15, 3), (30, 5), (60, 10)):
         for st in ("2025-01-06T00:00:00", "2025-01-06T00:07:00"):
             windows.append((r, st, years * 365 * 86400 + 3600))
+    # windows in which index x resolution passes 2^31 seconds (68 years): 32-bit products wrap there (fix 1766845)
+    for r, years in ((60, 75), (30, 70)):
+        windows.append((r, "2000-01-03T00:00:00", years * 365 * 86400 + 1800))
     for a in range(0, len(windows), 30):
         jobs.append(("conv%d" % a, {"kind": "conv", "windows": windows[a: a + 30], "with_tree": a == 0}))
     maxlen = 8 if q else 11
@@ -170,6 +173,24 @@ def run(seed, shard, nshards, out: ShardOut, n):
                 compare_job(job, tag, out, tmpdir, seed, shard)
         per = max(1, n // nshards)
         texts = project_texts(seed * 1000 + shard, per)
+        if shard == 1 % nshards:
+            # one long-running project: slot indexes whose distance from the start exceeds 2^31 seconds
+            texts.append(f"""project prj "P" 2000-01-03 +70y {{
+  timingresolution 60min
+}}
+resource dev "dev" {{
+}}
+task late "late" {{
+  effort {2 + seed % 3}d
+  allocate dev
+  start 2068-06-04-09:00
+}}
+task next "next" {{
+  effort 5h
+  allocate dev
+  depends late {{ gapduration 2d }}
+}}
+""")
         compare_job({"kind": "projects", "texts": texts, "with_tree": shard == 0}, "projects", out, tmpdir, seed, shard)
     finally:
         shutil.rmtree(tmpdir, ignore_errors=True)
